@@ -357,7 +357,14 @@ def element_specs():
                                                                                    "filename": "t"}})),
                               ("csv_path", lambda d: (os.path.join(d, "out", "new", "t.csv"),
                                                       {"output": {"filetype": "csv", "filepath": "out/new/t.csv"}})),
-                              ("hist_to_csv_zero", lambda d: (_H1(), {"output": {"to_csv": 0, "dirname": "new/h"}}))],
+                              ("hist_to_csv_zero", lambda d: (_H1(), {"output": {"to_csv": 0, "dirname": "new/h"}})),
+                              # option keys ToCSV reads for the values it converts, carried by values it does not convert
+                              ("int_duplicate_last_bin_false", lambda d: (3, {"output": {"duplicate_last_bin": False}})),
+                              ("int_duplicate_last_bin_true", lambda d: (3, {"output": {"duplicate_last_bin": True}})),
+                              ("hist_to_csv_false_dlb_false", lambda d: (_H1(), {"output": {"to_csv": False,
+                                                                                          "duplicate_last_bin": False}})),
+                              ("csv_text_dlb_false", lambda d: ("0,1\n1,2", {"output": {"filetype": "csv", "to_csv": False,
+                                                                                     "duplicate_last_bin": False}}))],
         doc="histograms (1-d, 2-d) and objects with rows() are converted; output.to_csv False, 3-d histograms and "
             "everything else pass"))
     out.append(ElementSpec(
@@ -378,6 +385,10 @@ def element_specs():
                           "filename": "g", "dirname": "other", "filetype": "csv", "fileext": "csv", "changed": True,
                           "filepath": os.path.join(d, "out", "other", "g.csv")}, "k": 1})),
                       ("write_attr_not_callable", lambda d: (_WriteAttr(), {"output": {"filename": "wa", "dirname": "new/wa"}})),
+                      ("int_all_output_keys", lambda d: (3, {"output": {"changed": True, "dirname": "new/int", "filename": "i",
+                                                                       "fileext": "ext", "filetype": "csv"}})),
+                      ("str_write_false_changed", lambda d: ("text", {"output": {"write": False, "changed": True,
+                                                                                "filename": "f1", "fileext": "dat"}})),
                       ("str_write_false_dirname", lambda d: ("text", {"output": {"write": False, "dirname": "new/nowrite",
                                                                                 "filename": "n"}}))],
         doc="strings and objects with write() are written unless output.write is False or the string is the very "
@@ -393,7 +404,10 @@ def element_specs():
                               ("already_rendered", lambda d: ("value=1 file=tex\n", {"output": {
                                   "filetype": "tex", "fileext": "tex", "dirname": "new/tex", "filename": "r",
                                   "template": "t.tex"}, "v": 1})),
-                              ("csv_uppercase", lambda d: ("f.csv", {"output": {"filetype": "CSV", "dirname": "new/x"}}))],
+                              ("csv_uppercase", lambda d: ("f.csv", {"output": {"filetype": "CSV", "dirname": "new/x"}})),
+                              ("int_template_key", lambda d: (3, {"output": {"template": "t2.tex", "filetype": "txt"}, "v": 99})),
+                              ("tex_typed_template_key", lambda d: ("x.tex", {"output": {"filetype": "tex", "template": "t2.tex",
+                                                                                    "fileext": "tex"}, "v": 98}))],
         doc="values with output.filetype == csv are rendered"))
     out.append(ElementSpec(
         "LaTeXToPDF", lambda d: lena.output.LaTeXToPDF(verbose=0, create_command=_stub_command),
@@ -407,7 +421,10 @@ def element_specs():
                               ("pdf_typed_new_dir", lambda d: (os.path.join(d, "tex", "new", "b.pdf"), {"output": {
                                   "filetype": "pdf", "dirname": "new", "filename": "b", "changed": True}})),
                               ("tex_path_without_type", lambda d: (os.path.join(d, "tex", "a1.tex"),
-                                                                   {"output": {"fileext": "tex", "changed": True}}))],
+                                                                   {"output": {"fileext": "tex", "changed": True}})),
+                              ("int_changed_false", lambda d: (3, {"output": {"changed": False, "filetype": "csv"}})),
+                              ("pdf_typed_changed_false", lambda d: (os.path.join(d, "tex", "a3.pdf"),
+                                                                     {"output": {"filetype": "pdf", "changed": False}}))],
         doc="values with output.filetype == tex are converted by a process; results may come at any later position"))
     out.append(ElementSpec(
         "PDFToPNG", lambda d: lena.output.PDFToPNG(verbose=False),
@@ -421,7 +438,10 @@ def element_specs():
                               ("png_typed_new_dir", lambda d: (os.path.join(d, "pdf", "new", "q.png"), {"output": {
                                   "filetype": "png", "dirname": "new", "filename": "q", "changed": True}})),
                               ("pdf_path_without_type", lambda d: (os.path.join(d, "pdf", "p1.pdf"),
-                                                                   {"output": {"fileext": "pdf", "changed": True}}))],
+                                                                   {"output": {"fileext": "pdf", "changed": True}})),
+                              ("int_changed_true", lambda d: (3, {"output": {"changed": True, "filetype": "tex"}})),
+                              ("png_typed_changed_false", lambda d: (os.path.join(d, "pdf", "p3.png"),
+                                                                     {"output": {"filetype": "png", "changed": False}}))],
         doc="values with output.filetype == pdf are converted with pdftoppm"))
     out.append(ElementSpec(
         "HistToGraph", lambda d: lena.structures.HistToGraph(),
@@ -430,19 +450,27 @@ def element_specs():
         B=COMMON_B + STR_B + [("hist_to_graph_false", lambda d: (_H1(), {"histogram": {"to_graph": False}})),
                               ("graph", lambda d: (_G(), {"g": 1})),
                               ("hist_to_graph_zero", lambda d: (_H1(), {"histogram": {"to_graph": 0}})),
-                              ("Histogram_element", lambda d: lena.structures.Histogram([0, 1, 2]))],
+                              ("Histogram_element", lambda d: lena.structures.Histogram([0, 1, 2])),
+                              ("int_value_key", lambda d: (3, {"value": {"variable": {"name": "zz"}},
+                                                               "histogram": {"to_graph": True}})),
+                              ("hist_to_graph_false_value_key", lambda d: (_H1(), {"histogram": {"to_graph": False},
+                                                                                   "value": {"variable": {"name": "zz"}}}))],
         doc="histograms are transformed unless histogram.to_graph is False"))
     out.append(ElementSpec(
         "MapBins", lambda d: lena.structures.MapBins(lambda x: x + 1, select_bins=int),
         A=[("hist_int_bins", lambda d: (_H1(), {"a": 1})), ("hist_bare", lambda d: _H1())],
         B=COMMON_B + STR_B + [("hist_list_bins", lambda d: _HL()), ("hist_list_bins_pair", lambda d: (_HL(), {"a": 1})),
-                              ("hist_hist_bins", lambda d: _HH())],
+                              ("hist_hist_bins", lambda d: _HH()),
+                              ("int_value_key", lambda d: (3, {"value": {"variable": {"name": "zz"}}})),
+                              ("hist_list_bins_value_key", lambda d: (_HL(), {"value": {"variable": {"name": "zz"}}}))],
         doc="histograms whose bins pass select_bins are mapped"))
     out.append(ElementSpec(
         "IterateBins", lambda d: lena.structures.IterateBins(),
         A=[("hist_of_hists", lambda d: _HH()), ("hist_of_hists_var", lambda d: (_HH(), {"variable": {"name": "x"}}))],
         B=COMMON_B + STR_B + [("hist_numbers", lambda d: _H1()), ("hist_numbers_pair", lambda d: (_H1(), {"a": 1})),
-                              ("hist_lists", lambda d: _HL())],
+                              ("hist_lists", lambda d: _HL()),
+                              ("int_variable_key", lambda d: (3, {"variable": {"name": "v9"}, "bin": {"edges_str": "e"}})),
+                              ("hist_numbers_variable_key", lambda d: (_H1(), {"variable": {"name": "v9"}, "bins": {"q": 1}}))],
         doc="histograms whose bins are histograms are iterated (one result per bin)"))
     # for RunIf(int, ...) values with int data are selected
     noint = [b for b in COMMON_B if b[0] not in ("int", "pair_unrelated", "pair_empty")] + [
@@ -463,7 +491,9 @@ def element_specs():
         A=[("group2", lambda d: ([1, 2], {"group": [{"a": 1}, {"a": 1, "b": 2}], "a": 1})),
            ("group1", lambda d: ([5], {"group": [{"c": 3}], "c": 3}))],
         B=COMMON_B + STR_B + [("scalar_with_group_key", lambda d: (5, {"group": [{}]})),
-                              ("iterable_without_group", lambda d: ([1, 2], {"n": 1}))],
+                              ("iterable_without_group", lambda d: ([1, 2], {"n": 1})),
+                              ("scalar_output_changed", lambda d: (5, {"output": {"changed": True}, "a": 1})),
+                              ("iterable_without_group_changed", lambda d: ([1, 2], {"output": {"changed": True}}))],
         doc="MapGroup(map_scalars=False): values with context.group and iterable data are mapped, scalars pass"))
     # further configurations of the same elements (same sample values)
     by = dict((e.name, e) for e in out)
